@@ -67,7 +67,14 @@ def passthrough(e):
         raise e
 
 
+def _many_rankings():
+    """hundreds of rankings (counts beyond the small integers CPython caches): flags and matrices as for small datasets"""
+    a, b = [[0], [1], [2]], [[1], [0, 2]]
+    return [[[[0]]] * 257, [a] * 300, [a, b] * 150, [a] * 299 + [[[0], [1]]], [a, b] * 500 + [[]]]
+
+
 def gen_cases(tier, seed):
+    yield {"kind": "static", "namekind": "canon", "datasets": _many_rankings(), "max_proj": 4}
     quick = tier == "quick"
     kinds = list(D.NAME_KINDS)
     base = list(D.all_datasets(3, 2))
@@ -437,6 +444,29 @@ def check_static(case, rec):
                 rec.content(sub.rankings, A.expected_names(proj)[0], site, pctx)
                 if len(keep) >= 1 and len(uni) >= 2:
                     rec.nk += 1
+                if variant == "foreign":
+                    continue
+                # the two optional flags, one at a time and together: keep_empty_rankings keeps the rankings that do
+                # not meet the kept set as empty rankings; keep_element_types keeps the names as they are in the dataset
+                proj_all = [[b2 for b2 in ([x for x in b if x in keep] for b in r) if b2] for r in exp]
+                for kempty, ktypes in ((True, False), (False, True), (True, True)):
+                    want = proj_all if kempty else proj
+                    if not any(want):
+                        continue
+                    fctx = dict(pctx, keep_empty_rankings=kempty, keep_element_types=ktypes)
+                    rec.evals += 1
+                    try:
+                        if variant == "ids":
+                            sub2 = ds.sub_problem_from_ids(kset, keep_empty_rankings=kempty, keep_element_types=ktypes)
+                        else:
+                            sub2 = ds.sub_problem_from_elements(kset, keep_empty_rankings=kempty,
+                                                                keep_element_types=ktypes)
+                    except Exception as e:                      # noqa: BLE001
+                        passthrough(e)
+                        rec.add("C16.prop", site + " raises", dict(fctx, exception=raise_text(e)))
+                        continue
+                    rec.content(sub2.rankings, want if ktypes else A.expected_names(want)[0], site + " (optional flags)",
+                                fctx)
 
 
 # ---------------------------------------------------------------------------------------------------------------------
